@@ -143,6 +143,16 @@ def judge(order, idx, mods, ref, rec, pyflags=()):
                       f"{f['exc']}: {f['msg']}; modules began loading in order {out['exec_order']}", case, mech)
         return
     rec.cls("succeeded")
+    if ref and ref.get("used") and out.get("used"):
+        # the modules loaded so far were USED (c20_child.smoke): same answers as in the interpreter that loaded everything
+        bad = {k: (ref["used"].get(k), v) for k, v in out["used"].items() if k in ref["used"] and ref["used"][k] != v}
+        rec.ev()
+        rec.mon("entry_points_called_after_partial_imports", len(out["used"]))
+        if bad:
+            k0 = sorted(bad)[0]
+            rec.violation("use-after-partial-import", f"after steps {steps} (modules loaded: {out['exec_order']}) the {k0} entry point answers {bad[k0][1]!r}; "
+                          f"with the whole package loaded it answers {bad[k0][0]!r}", case, "loaded-module-unusable-without-siblings")
+            return
     if ref and ref.get("snapshot") and out["snapshot"] != ref["snapshot"]:
         diffs = []
         for m in sorted(set(ref["snapshot"]) | set(out["snapshot"])):
